@@ -1,0 +1,187 @@
+//go:build verif
+
+package fasthttp
+
+// Contracts for server.go, checked by /verif/gocv (comment-only; compiled to nothing).
+//
+// serveConnCounted is verified in skeleton mode: its control flow and scalar locals are exact, the
+// effect of every callee is either a declared ghost effect below or unknown. Ghost variables model
+// what was put on the wire and what the per-request objects still hold.
+
+//@ spec legalState(a int, b int) bool =
+//@     (a == StateNew && (b == StateActive || b == StateClosed || b == StateHijacked)) ||
+//@     (a == StateActive && (b == StateIdle || b == StateClosed || b == StateHijacked)) ||
+//@     (a == StateIdle && (b == StateActive || b == StateClosed))
+
+//@ func Server.serveConnCounted results err
+//@   property C10 C11 C14 C17 C02 C35
+//@   mode skeleton
+//@   nooverflow
+//@   stable s.DisableKeepalive s.MaxRequestsPerConn s.CloseOnShutdown s.ReduceMemoryUsage s.StreamRequestBody
+//@   stable s.ExpectHandler s.ContinueHandler s.Handler s.GetOnly s.DisablePreParseMultipartForm s.MaxRequestBodySize
+//
+//      -- what this iteration did
+//@   ghost handled bool = false
+//@   ghost rejected bool = false
+//@   ghost wrote bool = false
+//@   ghost flushed bool = false
+//@   ghost bytesSeen bool = false
+//@   ghost lastStop int = 0
+//      -- request / response objects
+//@   ghost reqClose bool = false
+//@   ghost http11 bool = true
+//@   ghost respClose bool = false
+//@   ghost kaSet bool = false
+//@   ghost reqDirty bool = false
+//@   ghost respDirty bool = false
+//@   ghost formLive bool = false
+//@   ghost unread bool = false
+//@   ghost nd bool = false
+//      -- connection
+//@   ghost cstate int = StateNew
+//@   ghost sentClose bool = false
+//@   ghost hijackStarted bool = false
+//@   ghost ctxReleased int = 0
+//
+//@   on call Server.setState(_, _, x):
+//@     requires[legal-transition] @C14 legalState(cstate, x)
+//@     requires[active-after-byte] @C14 x == StateActive ==> bytesSeen
+//@     effect cstate = x
+//@   on call bufio.Reader.Peek -> b, e:
+//@     effect bytesSeen = bytesSeen || len(b) > 0
+//@   on call acquireByteReader -> r, e:
+//@     effect bytesSeen = bytesSeen || e == nil
+//@   on call RequestHeader.Read:
+//@     effect reqDirty = true
+//@   on call RequestHeader.readLoop:
+//@     effect reqDirty = true
+//@   on call Request.readLimitBody:
+//@     effect formLive = *
+//@   on call Request.readBodyStream:
+//@     effect unread = *
+//@   on call Request.ContinueReadBody:
+//@     effect formLive = *; unread = false
+//@   on call Request.ContinueReadBodyStream:
+//@     effect unread = *
+//@   on call field:ExpectHandler -> status:
+//@     effect rejected = rejected || status != StatusContinue; unread = unread || status != StatusContinue
+//@   on call field:ContinueHandler -> ok:
+//@     effect rejected = rejected || !ok; unread = unread || !ok
+//@   on call field:Handler:
+//@     effect handled = true; respClose = *; respDirty = true; unread = unread && nd
+//@   on call Request.hasUnreadBodyStream -> u:
+//@     returns unread
+//@   on call Response.CopyTo:
+//@     effect respClose = *; respDirty = true
+//@   on call RequestHeader.ConnectionClose -> r:
+//@     returns reqClose
+//@   on call RequestHeader.IsHTTP11 -> r:
+//@     returns http11
+//@   on call ResponseHeader.ConnectionClose -> r:
+//@     returns respClose
+//@   on call ResponseHeader.SetConnectionClose:
+//@     effect respClose = true
+//@   on call ResponseHeader.setNonSpecial:
+//@     effect kaSet = true
+//@   on call atomic.Int32.Load -> v:
+//@     effect lastStop = v
+//@   on call writeResponse:
+//@     requires[dispatched] @C11 handled || rejected
+//@     requires[close-header-matches] @C10 respClose == connectionClose
+//@     requires[close-reasons] @C10 reqClose || s.DisableKeepalive || rejected || unread ||
+//@                          (s.MaxRequestsPerConn > 0 && connRequestNum >= s.MaxRequestsPerConn) ||
+//@                          (s.CloseOnShutdown && lastStop == 1) ==> respClose
+//@     requires[http10-keepalive] @C10 !connectionClose && !http11 ==> kaSet
+//@     effect wrote = true; flushed = false; sentClose = respClose
+//@   on call acquireWriter -> w:
+//@     ensures w != nil
+//@   on call acquireReader -> r:
+//@     ensures r != nil
+//@   on call bufio.Writer.Flush:
+//@     effect flushed = true
+//@   on call Request.Reset:
+//@     effect reqDirty = false; formLive = false
+//@   on call Response.Reset:
+//@     effect respDirty = false; respClose = false; kaSet = false
+//@   on call Server.releaseCtx:
+//@     effect ctxReleased = ctxReleased + 1; reqDirty = false; respDirty = false; formLive = false
+//@   on go hijackConnHandler:
+//@     requires[response-flushed-first] @C17 hijackNoResponse || (wrote && flushed)
+//@     requires[reader-handed-over] @C17 br == nil && bw == nil
+//@     effect hijackStarted = true
+//
+//@   loop 1:
+//@     iter handled = false; rejected = false; wrote = false; flushed = false; bytesSeen = false; lastStop = 0
+//@     iter reqClose = *; http11 = *; nd = *
+//@     invariant[no-stale-decision] @C11 !connectionClose && hijackHandler == nil && !hijackNoResponse
+//@     invariant[objects-reset] @C11 !reqDirty && !respDirty && !respClose && !kaSet
+//@     invariant[body-consumed] @C02 !unread
+//@     invariant[no-form-files] @C35 !formLive
+//@     invariant[state] @C14 (cstate == StateNew && connRequestNum == 0 && br == nil) || (cstate == StateIdle && connRequestNum > 0)
+//@     invariant[never-after-close] @C10 !sentClose && !hijackStarted
+//@     invariant[ctx-held] @C11 ctxReleased == 0
+//
+//@   ensures[hijack-started] @C17 hijackHandler != nil && !connectionClose ==> hijackStarted || err != nil && err != errHijacked
+//@   ensures[hijack-hands-off] @C17 hijackStarted ==> br == nil && bw == nil && ctxReleased == 0 && err == errHijacked
+//@   ensures[only-hijack-reports-hijacked] @C10 @C17 connRequestNum > 0 && err == errHijacked ==> hijackStarted
+//@   ensures[ctx-released-once] @C11 !hijackStarted && hijackHandler == nil ==> ctxReleased <= 1
+//@   ensures[open-unless-close-sent] @C10 wrote && err == nil ==> sentClose || lastStop == 1
+//@   ensures[form-files-removed] @C35 !hijackStarted && timeoutResponse == nil && ctxReleased == 1 ==> !formLive
+
+// ServeConn: exactly one terminal state, the connection is closed unless it was hijacked, and the
+// concurrency counter is balanced on every path.
+//@ func Server.ServeConn results err
+//@   property C10 C14 C12 C17
+//@   mode skeleton
+//@   ghost closed int = 0
+//@   ghost cstate int = -1
+//@   ghost terminals int = 0
+//@   ghost served bool = false
+//@   ghost hij bool = false
+//@   ghost conc int = 0
+//@   ghost fastErr bool = false
+//@   on call net.Conn.Close:
+//@     effect closed = closed + 1
+//@   on call Server.setState(_, _, x):
+//@     requires[after-serving] @C14 served
+//@     effect cstate = x; terminals = terminals + 1
+//@   on call Server.serveConnCounted -> e:
+//@     requires[slot-held] @C12 conc == 1
+//@     effect served = true; hij = (e == errHijacked)
+//@   on call Server.tryAcquireConcurrency -> ok:
+//@     effect conc = conc + (ok ? 1 : 0)
+//@   on call Server.releaseConcurrency:
+//@     effect conc = conc - 1
+//@   on call Server.writeFastError:
+//@     effect fastErr = true
+//@   end
+//@   ensures[closed-unless-hijacked] @C10 @C17 served ==> (hij ? closed == 0 : closed == 1)
+//@   ensures[one-terminal-state] @C14 served ==> terminals == 1 && cstate == (hij ? StateHijacked : StateClosed)
+//@   ensures[rejected-is-closed] @C12 !served && err == ErrConcurrencyLimit ==> closed == 1 && fastErr && terminals == 0
+//@   ensures[concurrency-balanced] @C12 conc == 0
+//@   ensures[hijack-not-an-error] @C17 served && hij ==> err == nil
+
+// hijackConnHandler: the hijack handler gets the connection; afterwards the connection is closed
+// unless KeepHijackedConns, the reader is released only then, the ctx is released exactly once.
+//@ func hijackConnHandler
+//@   property C17
+//@   mode skeleton
+//@   stable s.KeepHijackedConns
+//@   ghost closed int = 0
+//@   ghost handlerRan int = 0
+//@   ghost closedBeforeHandler bool = false
+//@   ghost ctxReleased int = 0
+//@   ghost readerReleased int = 0
+//@   on call value:h:
+//@     effect handlerRan = handlerRan + 1; closedBeforeHandler = closed > 0 || readerReleased > 0 || ctxReleased > 0
+//@   on call net.Conn.Close:
+//@     effect closed = closed + 1
+//@   on call releaseReader:
+//@     effect readerReleased = readerReleased + 1
+//@   on call Server.releaseCtx:
+//@     effect ctxReleased = ctxReleased + 1
+//@   end
+//@   ensures[handler-runs-once-first] handlerRan == 1 && !closedBeforeHandler
+//@   ensures[closed-unless-kept] closed == (s.KeepHijackedConns ? 0 : 1)
+//@   ensures[reader-kept-with-conn] s.KeepHijackedConns ==> readerReleased == 0
+//@   ensures[ctx-released-once] ctxReleased == 1
